@@ -545,6 +545,38 @@ theorem levels_fold {ι α : Type} (step : α → Except PyExc α)
       rw [hstop l _ (by rfl)]
       rfl
 
+/-- the same, for a loop body that is only required to agree with `levelBody` in what is observed: identity once a
+level has failed; on success exactly the next state; on failure the failure and the levels so far (which image the
+state then holds is not observed) -/
+theorem levels_fold' {ι α : Type} (step : α → Except PyExc α)
+    (f : Option (Except PyExc (List α)) × List α × α → ι → Option (Except PyExc (List α)) × List α × α)
+    (hstop : ∀ acc it, acc.1.isSome = true → f acc it = acc)
+    (hgo : ∀ out cur it, match step cur with
+      | .ok im => f (none, out, cur) it = (none, out ++ [im], im)
+      | .error e => (f (none, out, cur) it).1 = some (.error e) ∧ (f (none, out, cur) it).2.1 = out) :
+    ∀ (l : List ι) (L : List α) (cur : α),
+    (l.foldl f (none, L, cur)).1.getD (.ok (l.foldl f (none, L, cur)).2.1) = levelsFrom step l.length L cur := by
+  have hfix : ∀ (l : List ι) (st : Option (Except PyExc (List α)) × List α × α), st.1.isSome = true →
+      l.foldl f st = st := by
+    intro l
+    induction l with
+    | nil => intro st _; rfl
+    | cons b l ih2 => intro st hst; simp only [List.foldl_cons, hstop st b hst]; exact ih2 st hst
+  intro l
+  induction l with
+  | nil => intro L cur; rfl
+  | cons a l ih =>
+    intro L cur
+    simp only [List.foldl_cons, List.length_cons, levelsFrom]
+    have h := hgo L cur a
+    cases hs : step cur with
+    | ok im => rw [hs] at h; simp only at h; rw [h]; exact ih _ _
+    | error e =>
+      rw [hs] at h
+      obtain ⟨h1, h2⟩ := h
+      rw [hfix l _ (by rw [h1]; rfl), h1]
+      rfl
+
 theorem genPyramid_eq (spl : Spl) (o : Obj) (n : Int) (ds : Rat) :
     genPyramid spl o n ds = levelsObj (stepObj spl ds) (n - 1).toNat o := by
   unfold genPyramid levelsObj
@@ -578,40 +610,44 @@ theorem genGaussianPyramid_eq (spl : Spl) (kern : Rat → List Rat) (o : Obj) (n
   | none =>
     simp only [Py.forLoop_eq_foldl, PyIter.iter, pyRange, id, List.nil_append, Option.isNone_none, if_true]
     generalize hst : List.foldl _ (none, [o], o) _ = st
-    have key := fun f hf => levels_fold (ι := Int) (stepGaussObj spl kern ds (some (ds / 3))) f hf
+    have key := fun f hstop hgo => levels_fold' (ι := Int) (stepGaussObj spl kern ds (some (ds / 3))) f hstop hgo
       (List.map Int.ofNat (List.range (n - 1).toNat)) [o] o
     simp only [List.length_map, List.length_range] at key
-    refine Eq.trans ?_ (hst ▸ key _ ?_)
+    refine Eq.trans ?_ (hst ▸ key _ ?_ ?_)
     · rcases st with ⟨_ | v, out, im⟩ <;> rfl
-    · intro acc it
-      unfold levelBody stepGaussObj
+    · intro acc it hs
       rcases acc with ⟨_ | v, out, im⟩
-      · cases h1 : pyRecip ds with
-        | error e => simp [Except.bind]
-        | ok k =>
-          simp only [Except.bind, ToScaleArg.conv]
-          cases h2 : genRescale spl (gaussianFilter kern im (some (ds / 3))) (.scalar k) "ceil" 1 true false <;>
-            simp [Except.map]
+      · simp at hs
       · simp
+    · intro out cur it
+      unfold stepGaussObj
+      cases h1 : pyRecip ds with
+      | error e => simp [Except.bind]
+      | ok k =>
+        simp only [Except.bind, ToScaleArg.conv]
+        cases h2 : genRescale spl (gaussianFilter kern cur (some (ds / 3))) (.scalar k) "ceil" 1 true false <;>
+          simp [Except.map, h2]
   | some sg =>
     simp only [Py.forLoop_eq_foldl, PyIter.iter, pyRange, id, List.nil_append, Option.isNone_some, Bool.false_eq_true,
       if_false]
     generalize hst : List.foldl _ (none, [o], o) _ = st
-    have key := fun f hf => levels_fold (ι := Int) (stepGaussObj spl kern ds (some sg)) f hf
+    have key := fun f hstop hgo => levels_fold' (ι := Int) (stepGaussObj spl kern ds (some sg)) f hstop hgo
       (List.map Int.ofNat (List.range (n - 1).toNat)) [o] o
     simp only [List.length_map, List.length_range] at key
-    refine Eq.trans ?_ (hst ▸ key _ ?_)
+    refine Eq.trans ?_ (hst ▸ key _ ?_ ?_)
     · rcases st with ⟨_ | v, out, im⟩ <;> rfl
-    · intro acc it
-      unfold levelBody stepGaussObj
+    · intro acc it hs
       rcases acc with ⟨_ | v, out, im⟩
-      · cases h1 : pyRecip ds with
-        | error e => simp [Except.bind]
-        | ok k =>
-          simp only [Except.bind, ToScaleArg.conv]
-          cases h2 : genRescale spl (gaussianFilter kern im (some sg)) (.scalar k) "ceil" 1 true false <;>
-            simp [Except.map]
+      · simp at hs
       · simp
+    · intro out cur it
+      unfold stepGaussObj
+      cases h1 : pyRecip ds with
+      | error e => simp [Except.bind]
+      | ok k =>
+        simp only [Except.bind, ToScaleArg.conv]
+        cases h2 : genRescale spl (gaussianFilter kern cur (some sg)) (.scalar k) "ceil" 1 true false <;>
+          simp [Except.map, h2]
 
 
 /-! ### the level step as a plan; the generators refine the plan-level pyramids -/
